@@ -2,10 +2,128 @@
    in Proofs/C19.v; Print Assumptions beneath each. *)
 From Coq Require Import List NArith Bool.
 Import ListNotations.
-Require Import Verif.Lib.Wire Verif.Gen.Facts_C19 Verif.Model.C19 Verif.Proofs.C19.
+Require Import Verif.Lib.Wire Verif.Lib.Utf8 Verif.Gen.Facts_C19 Verif.Model.C19 Verif.Proofs.C19.
+Open Scope N_scope.
 
-(* prepare() as written (choices regenerated from the source) renders exactly what the
-   specification policy renders, for every input *)
+(* prepare() as written (branch choices, escape function per branch, args table, loops'
+   escaping: all regenerated from the source) renders exactly what the specification policy
+   renders -- html_escape on every supplied text in the HTML form, text as is in the JSON and
+   plain forms -- for every input *)
 Theorem C19_model_meets_spec : forall i, model i = spec i.
 Proof. exact model_meets_spec. Qed.
 Print Assumptions C19_model_meets_spec.
+
+(* Template.substitute is one left-to-right pass: the token list depends on the template only,
+   and the result is the concatenation of template characters, '$' for '$$' and the mapping's
+   values; values are never scanned *)
+Theorem C19_substitute_single_pass : forall tmpl e out,
+  substitute tmpl e = Ok out <->
+  Forall (tok_ok e) (tokenise tmpl) /\ out = flat_map (tok_text e) (tokenise tmpl).
+Proof. exact substitute_single_pass. Qed.
+Print Assumptions C19_substitute_single_pass.
+
+(* For every branch (HTML, JSON, plain), class, template (class or custom body_template=),
+   headers, environ, comment, explanation there is ONE frame -- or one error -- such that for
+   every detail text the page is that frame with the escaped detail plugged in verbatim:
+   placeholders inside the detail are never expanded, nothing outside it depends on it. *)
+Theorem C19_no_placeholder_expansion : forall b c i, exists R : res frame, forall d,
+  page_text spec_policy b c (with_detail i d) =
+  rmap (fun q => fill q (plug b (esc_apply (b_esc b) (or_empty d)))) R.
+Proof. exact no_placeholder_expansion. Qed.
+Print Assumptions C19_no_placeholder_expansion.
+
+(* html_escape output: no angle bracket, no quote, ASCII only *)
+Theorem C19_escape_no_markup : forall s c,
+  In c (html_escape s) -> is_markup c = false /\ c <? 128 = true.
+Proof. exact escape_no_markup. Qed.
+Print Assumptions C19_escape_no_markup.
+
+(* html_escape output is a sequence of units, one per input character: a plain ASCII
+   character other than ampersand, angle brackets, quotes, or one complete character reference *)
+Theorem C19_escape_units : forall s,
+  html_escape s = concat (map html_escape1 s) /\ Forall unit_ok (map html_escape1 s).
+Proof. exact escape_units. Qed.
+Print Assumptions C19_escape_units.
+
+(* an ampersand occurs in a unit only as its first character, and then the unit is a
+   complete reference *)
+Theorem C19_escape_amp_refs : forall u, unit_ok u -> forall a b, u = a ++ 38 :: b ->
+  a = [] /\ (u = ent_amp \/ u = ent_lt \/ u = ent_gt \/ u = ent_quot \/ u = ent_apos \/
+             exists ds, ds <> [] /\ forallb is_digit ds = true /\ u = [38; 35] ++ ds ++ [59]).
+Proof. exact unit_amp. Qed.
+Print Assumptions C19_escape_amp_refs.
+
+(* Two renderings in the HTML form that differ only in the texts supplied (detail,
+   explanation, comment, location, header values, environ values) have exactly the same
+   sequence of markup characters, or fail alike: no angle bracket or quote of the page
+   originates from supplied text.  Holds for class templates and custom templates. *)
+Theorem C19_no_request_markup : forall c i i', same_shape i i' ->
+  res_rel same_mk (page_text spec_policy bh c i) (page_text spec_policy bh c i').
+Proof. exact no_request_markup. Qed.
+Print Assumptions C19_no_request_markup.
+
+(* the whole HTML response of every class that uses the default body template *)
+Theorem C19_html_body_shape : forall i c,
+  find_cls (i_cls i) classes = Some c -> c_empty c = false -> c_default_tmpl c = true -> i_tmpl i = None ->
+  chosen_type i = t_html ->
+  spec i = Some (rmap (mkOutput (status_of c) t_html cs_utf8)
+    (utf8_bytes
+      (H1 ++ status_of c ++ H2 ++ status_of c ++ H3 ++
+       (html_escape (expl_of c i) ++ s_br_html ++ s_br_html ++ [10] ++
+        html_escape (or_empty (i_detail i)) ++ [10] ++
+        (if is_nil (or_empty (i_comment i)) then [] else s_cpre ++ html_escape (or_empty (i_comment i)) ++ s_csuf) ++ [10])
+       ++ H4))).
+Proof. exact html_body_shape. Qed.
+Print Assumptions C19_html_body_shape.
+
+(* the default 404 page (the router passes request.path_info as detail): fixed text around
+   the escaped path *)
+Theorem C19_not_found_page_safe : exists st pre post,
+  (forall path i,
+     i_cls i = n_notfound -> i_detail i = Some path -> i_comment i = None -> i_expl i = None ->
+     i_tmpl i = None -> chosen_type i = t_html ->
+     spec i = Some (rmap (mkOutput st t_html cs_utf8) (utf8_bytes (pre ++ html_escape path ++ post))))
+  /\ (forall path ch, In ch (html_escape path) -> is_markup ch = false /\ ch <? 128 = true).
+Proof. exact not_found_page_safe. Qed.
+Print Assumptions C19_not_found_page_safe.
+
+(* the content type is that of the first offer the negotiation kept, else text/plain *)
+Theorem C19_content_type_matches : forall i c o,
+  Forall (fun t => In t offers) (i_offers i) ->
+  find_cls (i_cls i) classes = Some c -> c_empty c = false ->
+  spec i = Some (Ok o) ->
+  o_ctype o = spec_type i /\
+  (o_ctype o = t_html /\ o_charset o = cs_utf8 \/ o_ctype o = t_json /\ o_charset o = [] \/
+   o_ctype o = t_plain /\ o_charset o = cs_utf8).
+Proof. exact content_type_matches. Qed.
+Print Assumptions C19_content_type_matches.
+
+(* json.dumps output reads back: the reference RFC 8259 reader returns exactly the members *)
+Theorem C19_json_roundtrip : forall k1 k2 k3 a b c,
+  forallb valid_scalar k1 = true -> forallb valid_scalar k2 = true -> forallb valid_scalar k3 = true ->
+  forallb valid_scalar a = true -> forallb valid_scalar b = true -> forallb valid_scalar c = true ->
+  json_read_object (json_object [(k1, a); (k2, b); (k3, c)]) = Some [(k1, a); (k2, b); (k3, c)].
+Proof. exact json_object3_roundtrip. Qed.
+Print Assumptions C19_json_roundtrip.
+
+(* In the JSON form the body is ASCII and is a JSON object which reads back to
+   message / code / title, the message being the rendered text character for character
+   (for text made of Unicode scalar values) *)
+Theorem C19_json_verbatim : forall i c body,
+  find_cls (i_cls i) classes = Some c -> c_empty c = false -> chosen_type i = t_json ->
+  substitute (tmpl_of c i) (build_args spec_policy bj c i (is_custom c i)) = Ok body ->
+  forallb valid_scalar body = true ->
+  exists bytes,
+    spec i = Some (Ok (mkOutput (status_of c) t_json [] bytes)) /\ ascii bytes /\
+    json_read_object bytes = Some [(k_message, body); (k_code, status_of c); (k_title, c_title c)].
+Proof. exact json_verbatim. Qed.
+Print Assumptions C19_json_verbatim.
+
+(* ... where, for the classes using the default body template, the rendered text is the
+   explanation, three newlines, the detail verbatim, a newline, the comment verbatim, a newline *)
+Theorem C19_json_default_message : forall c i,
+  c_default_tmpl c = true -> c_tmpl c = default_body_template -> i_tmpl i = None ->
+  substitute (tmpl_of c i) (build_args spec_policy bj c i (is_custom c i)) =
+  Ok (expl_of c i ++ [10; 10; 10] ++ or_empty (i_detail i) ++ [10] ++ or_empty (i_comment i) ++ [10]).
+Proof. exact json_default_message. Qed.
+Print Assumptions C19_json_default_message.
